@@ -620,8 +620,6 @@ def generate(out: Path = OUT) -> dict:
         and m == 'wide-line-cx-u3' and w == 2 and l == 1,
         'witL4W1Wide': lambda k, l, m, w: k == 'circuit'
         and m == 'wide-line-cx-u3' and w == 1 and l == 4,
-        'witQutritSQ': lambda k, l, m, w: k == 'circuit'
-        and m == 'a2a-qutrit' and w == 2 and l == 1,
         'witNoSQ': lambda k, l, m, w: k == 'circuit'
         and m == 'line-cx-nosq' and w == 5 and l == 1,
         'witResynth': lambda k, l, m, w: k == 'circuit'
